@@ -97,11 +97,16 @@ SUITES = {
         props=["C09", "C10"],
     ),
     "sectors": dict(
-        mc=[],
+        # the lifecycle model of one miner with the real tiny-policy numbers: exhaustive, with a transition tour
+        mc=[dict(module="MC_Sectors", cfg=tiered("MC_Sectors.cfg", "MC_Sectors_thorough.cfg"),
+                 timeout=tiered(1500, 4 * 3600), workers=tiered(6, 14))],
+        sim=dict(module="MC_Sectors", cfg="Sim_Sectors.cfg", num=tiered(10, 300), depth=40),
+        tour_cap=tiered(160, 5000),
         driver="sectors",
-        driver_args=lambda tier: ["--random", 12 if tier == "quick" else 400, "--len", 120],
-        trace=dict(module="Trace_Sectors", cfg_in="Trace_Sectors.cfg.in", timeout=3600),
-        props=["C02", "C03", "C04", "C05", "C14", "C01"],
+        driver_args=lambda tier: ["--random", 12 if tier == "quick" else 600, "--len", 120],
+        # the trace file holds independent traces: validated by several TLC processes in parallel
+        trace=dict(module="Trace_Sectors", cfg_in="Trace_Sectors.cfg.in", timeout=4 * 3600, split=tiered(6, 14)),
+        props=["C02", "C03", "C04", "C05", "C14", "C15", "C01"],
     ),
     "evmcalls": dict(
         mc=[dict(module="MC_EVMCalls", cfg=tiered("MC_EVMCalls.cfg", "MC_EVMCalls_thorough.cfg"),
@@ -139,6 +144,8 @@ PROPS = {
     "C07": dict(suites=["market"], title="Deal payments are exact and independent of the settlement schedule"),
     "C08": dict(suites=["market"], title="Deal lifecycle: unique publication, one timely activation by the provider"),
     "C13": dict(suites=["minerctl"], title="Control of a miner changes hands only by two-sided, delayed handover"),
+    "C14": dict(suites=["sectors", "minerctl"], title="Miner funds unlock only on schedule; withdrawals never touch collateral"),
+    "C15": dict(suites=["sectors"], title="Faults and early terminations are always paid for"),
     "C12": dict(suites=["multisig"], title="Multisig: spending needs a quorum of current signers, once, within the lock"),
     "C20": dict(suites=["initd"], title="Actor identities are unique, stable and derived as specified"),
     "C17": dict(suites=["evm17"], title="EVM instructions compute what the Ethereum specification says"),
@@ -149,8 +156,7 @@ PROPS = {
 
 NOT_BUILT = "check not built yet in this round (work in progress; see DESIGN.md build order)"
 NOT_APPLICABLE = {p: NOT_BUILT for p in
-                  ["C10",
-                   "C14", "C15"]}
+                  ["C10"]}
 
 _MKT = ("Bounded exhaustive TLC model checking of spec/Market.tla with the REAL protocol constants (180-day minimum duration, 30-day cron interval; time jumps only between deal boundaries and scheduled cron epochs, so the state space is small and every behaviour is replayable 1:1): every interleaving of deposits, withdrawals, batch publication with invalid entries, both activation paths, settlement, sector termination and the per-epoch cron over <= 2 deals; formulas as invariants over state + event-derived ghosts and as action properties. Conformance: a transition tour of the model, TLC simulation behaviours and guided random schedules run on the real market actor with real miner actors as providers; every recorded step validated by TLC. ")
 _SEC = ("System-level conformance: guided random schedules of USER messages only (pre-commit, prove-commit, Window PoSt with skipped sets, fault / recovery declarations, terminations, extensions, compaction, withdrawals, block rewards, fault-plan injections) plus the per-epoch cron are run on the real miner, power, reward, cron and market actors under a scaled-down policy (4 deadlines x 6 epochs, 2 KiB sectors, partition size 2), miners created through the real power actor; after every message and tick the full projected state (every partition bitfield, memo, expiration queue, claim, cron queue, balance) is validated by TLC against the Layer-P formulas of spec/SectorsP.tla written from the protocol. ")
@@ -166,6 +172,8 @@ LEVEL_TEXT = {
     "C06": _MKT + "C06 formulas: LockedIsObligation, LockedLeqEscrow, TotalsMatch, WithdrawExact, EscrowOnlyOwnMoves.",
     "C07": _MKT + "C07 formulas: EscrowExplained (every party's escrow equals deposits - withdrawals +/- the ideal per-deal payment formula at every moment, whatever the settlement schedule), BurnExact, EndLegit.",
     "C08": _MKT + "C08 formulas: IdsFresh, NoTwinDeals, PendingIsLive, PublishRules, PublishFunded, ActivationRules, ActivatedOnce.",
+    "C14": _SEC + "C14 formulas: VestShape (the vesting table is sorted, positive, sums to locked_funds), RewardVestsOnSchedule (each ApplyRewards / creation deposit adds exactly the linear 180-step schedule, quantised to the miner's proving-period offset, recomputed in the specification), NoEarlyUnlock (locked funds decrease only by entries whose epoch has passed, or to pay the miner's own penalties), WithdrawBounded (the amount sent equals min(requested, balance - locked - pre-commit deposits - pledge) after full debt repayment, goes to the beneficiary only, is refused for other callers and while early terminations are pending). Beneficiary quota / expiry / who-may-withdraw are decided in the MinerControl suite (exhaustive model + tour + real miner).",
+    "C15": _SEC + "C15 formulas: DebtBlocks (while fee debt is outstanding and cannot be repaid, pre-commit, recovery declaration and withdrawal are refused), BurnMonotone / NoFlowFromBurn (the burnt-funds actor only receives; every penalty transfer is non-negative and none goes to the miner or its owner), ConsensusFaultPaid (burnt + paid to reporter + new fee debt = the consensus-fault penalty; the reporter's share never exceeds what was taken; also with the reporter transfer failing by fault-plan injection), TerminationFeeFloor (every sector whose early termination is processed pays at least 2% of its pledge, and the total never exceeds the cap); that a missed or skipped proof removes the power is decided by PowerIsActive (C02) and the lifecycle model binding.",
     "C13": "Bounded exhaustive TLC model checking of spec/MinerControl.tla (all interleavings of the owner, worker and beneficiary hand-over protocols, withdrawals, the cron pending-worker step and epoch advances by owner, proposed owner, beneficiary, nominee and strangers; C13 formulas as action properties over a ghost that re-derives approvals from the accepted calls) + conformance: TLC-exported behaviours and random schedules run on a real miner actor created through the power actor; each recorded step is validated by TLC.",
     "C12": "Bounded exhaustive TLC model checking of spec/Multisig.tla (every interleaving of propose/approve/cancel by signers and outsiders with admin transactions and re-entrant self-calls executed inside the approving step, within small constants) + conformance: TLC-exported behaviours and random schedules run on the real multisig actor (created through init, inner sends really executed) and each recorded step is validated by TLC against the C12 formulas and the spec's transition function.",
     "C16": "Bounded exhaustive TLC model checking of spec/Paych.tla (all voucher/settle/collect interleavings within small constants, C16 formulas as invariants and action properties) + conformance: TLC-exported behaviours and random schedules are executed on the real paych actor and every recorded step is validated by TLC against the same formulas and the spec's transition relation.",
